@@ -160,7 +160,7 @@ class Session:
 
     def op(self, name, *args):
         r = self.p.ask([name] + [str(a) if isinstance(a, int) else a for a in args])
-        if r[0] == 'ok' and name in ('and', 'or', 'not', 'simpx', 'simppv', 'cplxpv', 'const'):
+        if r[0] == 'ok' and name in ('and', 'or', 'not', 'simpx', 'simppv', 'cplxpv', 'const', 'withextra'):
             reg = self._record(r[1], r[2])
             self.steps.append((name, args, reg, r))
             return reg, r
